@@ -181,7 +181,8 @@ def handleReq (store : Store) (j : Json) : Except String Json := do
     let fuel := 4000
     let base := [("shadowRisk", Json.bool (shadowRisk (preSimp q) || shadowRisk (preSimp q2))),
                  ("aliasRisk", Json.bool (aliasRisk (preSimp q) || aliasRisk (preSimp q2))),
-                 ("argNameRisk", Json.bool (argNameRisk q || argNameRisk q2))]
+                 ("argNameRisk", Json.bool (argNameRisk q || argNameRisk q2)),
+                 ("captureFree", Json.bool (captureFreeB fuel q && captureFreeB fuel q2))]
     if kind == "alpha" then
       return Json.mkObj ([("related", Json.bool (alphaB q q2))] ++ base)
     else if kind == "style" then
@@ -203,9 +204,18 @@ def handleReq (store : Store) (j : Json) : Except String Json := do
           | some r => r == q2
           | none => false
         | none => false
-      return Json.mkObj ([("related", Json.bool rel), ("sameNF", Json.bool (sameNormalFormB fuel q q2))] ++ base)
+      let siteOk := match resolvePath path q with
+        | some p => fuseSiteOkB fuel q p
+        | none => false
+      return Json.mkObj ([("related", Json.bool rel), ("sameNF", Json.bool (sameNormalFormB fuel q q2)), ("siteOk", Json.bool siteOk)] ++ base)
     else if kind == "nf" then
-      return Json.mkObj ([("related", Json.bool true), ("sameNF", Json.bool (sameNormalFormB fuel q q2))] ++ base)
+      -- fused by substitution / unfused: `path` is the site in whichever of the two is the separately written one
+      let path ← (← (← j.getObjVal? "path").getArr?).toList.mapM (·.getInt?)
+      let sep ← qOfJson (← j.getObjVal? "sep")
+      let siteOk := match resolvePath path sep with
+        | some p => fuseSiteOkB fuel sep p
+        | none => false
+      return Json.mkObj ([("related", Json.bool true), ("sameNF", Json.bool (sameNormalFormB fuel q q2)), ("siteOk", Json.bool siteOk)] ++ base)
     else if kind == "wire" then
       return Json.mkObj ([("related", Json.bool (wireNorm q == wireNorm q2))] ++ base)
     else throw s!"unknown variant kind {kind}"
